@@ -371,11 +371,26 @@ def _extend(F, how, is_cnf):
             F.add_linear([1, 2, -3], '!=', 1)
         else:
             F.cardinality_neq([1, 2, -3], 1)
-    else:
+    elif how == 8:
         if is_cnf:
             F.add_strict_majority([1, 2, 3])
         else:
             F.add_constraint([(2, 1), (1, -2), '>=', 2])
+    else:
+        # growth WITHOUT a new clause: a constraint over variables nobody has declared that is trivially true
+        n = F.number_of_variables()
+        if how == 9:
+            if is_cnf:
+                F.add_linear([n + 1, -(n + 2)], '>=', 0)
+            else:
+                F.cardinality_geq([n + 1, -(n + 2)], 0)
+        elif how == 10:
+            F.cardinality_leq([1, n + 3], 5)
+        else:
+            if is_cnf:
+                F.add_linear([-(n + 1)], '!=', 4)
+            else:
+                F.cardinality_neq([-(n + 1)], 4)
 
 
 def _render_all(F, is_cnf):
@@ -407,10 +422,10 @@ def _render_extend(a, h1, h2, is_cnf, li):
 
 def h_e_render_extend(a: int, h1: int, h2: int, is_cnf: bool, li: int) -> bool:
     """
-    pre: 0 <= a <= 11 and 0 <= h1 <= 8 and 0 <= h2 <= 8 and 0 <= li <= 2
+    pre: 0 <= a <= 11 and 0 <= h1 <= 11 and 0 <= h2 <= 11 and 0 <= li <= 2
     post: _
     """
-    return untraced(_render_extend, pick(a, 0, 11), pick(h1, 0, 8), pick(h2, 0, 8), pickb(is_cnf), pick(li, 0, 2))
+    return untraced(_render_extend, pick(a, 0, 11), pick(h1, 0, 11), pick(h2, 0, 11), pickb(is_cnf), pick(li, 0, 2))
 
 
 class _Named:
